@@ -89,3 +89,5 @@ def run(check):
     check.extra['configurations'] = [m[0] for m in MATRIX]
     check.extra['programs_compared'] = len(jobs)
     usimrun.judge(check, OBS, runs)
+    # FIFO turn order at kernel level: the Loop's scheduling decisions against ObsK
+    usimrun.judge_kernel(check, usimrun.kernel_traces(check, 300 if check.tier == 'quick' else 5000), 'C02.')
